@@ -140,6 +140,13 @@ def cases(shard, nshards, seed, tier):
     for name, n, pairs in k9:
         if mine():
             yield {"family": "nine-stem-group", "name": name, "n": n, "pairs": pairs}
+    # the list as the 3D mapping prints it (one text per strand, with gap placeholders when asked for)
+    from vmon import gen3d
+
+    for fn in [f for f in gen3d.corpus_files() if f.endswith(("488d.pdb", "1ehz-assembly-1.cif", "4qln.cif", "1E7K_1_C.cif", "4WTI_1_T-P.cif", "8btk_B7.cif"))]:
+        for k, ops in enumerate(([], [], [{"op": "thin-res", "seed": f"{seed}:c16", "frac": 0.12}], [{"op": "thin-res", "seed": f"{seed}:c16b", "frac": 0.2}], [{"op": "reverse-res"}], [{"op": "split-chain", "tail": 3}])):
+            if mine():
+                yield {"family": "from-3d", "file": fn, "ops": ops, "gaps": k != 0}
     nrand = 1200 if tier == "quick" else 20000
     cap = 6 if tier == "quick" else 8
     for i in range(nrand):
@@ -167,7 +174,47 @@ def _side_by_side(rng, sizes):
     return off, sorted(allp)
 
 
+def _from_3d(case, rec):
+    """Mapping2D3D.all_dot_brackets: joined over the strands, the printed notations must be exactly the
+    members of the BPSEQ's own list (judged against the enumerator by the monitor in the same execution)."""
+    from rnapolis import annotator, tertiary
+    from vmon import gen3d
+
+    s = gen3d.load(case["file"])
+    if case["ops"]:
+        s = gen3d.apply_ops(s, case["ops"])
+    det = lambda extra=None: {"file": case["file"], "ops": case["ops"], "gaps": case["gaps"], "info": extra}
+    try:
+        bi = annotator.extract_base_interactions(s)
+        m = tertiary.Mapping2D3D(s, bi.basePairs, bi.stackings, case["gaps"])
+        b = m.bpseq
+        f = mon2d.facts(mon2d.snapshot(b))
+        if f is None or max((len(c) for c in o2d.components(f["g"])), default=0) > 8:
+            rec.skip("mapping.list-is-the-bpseq-list", "bpseq outside the domain / group > 8 stems")
+            return
+        rec.mark_nontrivial(f["knotted"])
+        texts = list(m.all_dot_brackets)
+        own = [d.structure for d in b.all_dot_brackets]
+    except Exception as e:
+        rec.violation("mapping.no-crash", det(repr(e)[:300]), mechanism=f"crash:{type(e).__name__}")
+        return
+    seq = "".join(e.sequence for e in b.entries)
+    joined = []
+    bad = None
+    for t in texts:
+        lines = [l for l in t.split("\n") if l and not l.startswith(">")]
+        sq, st = "".join(lines[0::2]), "".join(lines[1::2])
+        if sq != seq or len(st) != len(seq):
+            bad = {"text": t[:300], "bpseq-sequence": seq[:150]}
+        joined.append(st)
+    rec.check("mapping.members-have-the-bpseq-sequence", bad is None, lambda: det(bad))
+    rec.check("mapping.list-is-the-bpseq-list", sorted(joined) == sorted(own) and len(set(joined)) == len(joined),
+              lambda: det({"printed": sorted(joined)[:4], "bpseq-list": sorted(own)[:4]}))
+
+
 def run_case(case, rec):
+    if case["family"] == "from-3d":
+        return _from_3d(case, rec)
     n, pairs = case["n"], [tuple(p) for p in case["pairs"]]
     b = mon2d.make_bpseq(n, pairs)
     f = mon2d.facts(mon2d.snapshot(b))
